@@ -172,7 +172,9 @@ def checkNames (inRecs outRecs : Array NameRec) (renamed : Bool) : List String :
   let lt4 (x y : Nat × Nat × Nat × Nat) : Bool :=
     x.1 < y.1 || (x.1 == y.1 && (x.2.1 < y.2.1 || (x.2.1 == y.2.1 && (x.2.2.1 < y.2.2.1 || (x.2.2.1 == y.2.2.1 && x.2.2.2 < y.2.2.2)))))
   for (a, b) in outRecs.toList.zip (outRecs.toList.drop 1) do
-    if lt4 (key b) (key a) then out := out ++ [s!"name records not sorted at {key a},{key b}"]
+    -- strictly: two records with the same platform, encoding, language and name id are a duplicate
+    if !(lt4 (key a) (key b)) then
+      out := out ++ [if key a == key b then s!"duplicate name record {key a}" else s!"name records not sorted at {key a},{key b}"]
   return out
 
 end Grc.SfntChk
